@@ -73,6 +73,7 @@ def bounds(tier):
         "x_max_len": 4 if tier == "quick" else 5,
         "d1": len(D1S),
         "d2": len(D2S),
+        "d1_d2_pairs_for_sequences": 8 if tier == "quick" else 20,
         "x_block_prefixes_and_single_edits": len(X_BLOCKS),
         "routes": list(ROUTES),
     }
@@ -181,11 +182,12 @@ def check_triple(i, x, j, acc, case=None):
 def run_shard(shard, tier, acc):
     kind = shard[0]
     if kind == "seq":
+        # quick: every D1 with the first D2 and every D2 with the first D1 (8 pairs); thorough: the full 4 x 5 grid
+        grid = [(i, j) for i in range(len(D1S)) for j in range(len(D2S)) if tier == "thorough" or i == 0 or j == 0]
         for toks in seq_iter(spaces.SIGMA_DOC, shard[1]):
             x = "".join(toks)
-            for i in range(len(D1S)):
-                for j in range(len(D2S)):
-                    check_triple(i, x, j, acc)
+            for i, j in grid:
+                check_triple(i, x, j, acc)
     elif kind == "xfam":
         for n in X_SIZES[tier]:
             x = X_FAMILIES[shard[1]](n)
